@@ -81,6 +81,10 @@ def main(args, cfg):
     if args.replay:
         rf = json.load(open(args.replay))
         job = rf["job"]
+        if rf.get("config_text"):
+            os.makedirs(os.path.join(work, "configs"), exist_ok=True)
+            job["config_file"] = os.path.join(work, "configs", "replay.yaml")
+            open(job["config_file"], "w").write(rf["config_text"])
         job["run_patterns"] = [rf["test_name"]]
         job["name"] = "replay"
         r = N.run_shard(binp, job, work, 900)
@@ -160,7 +164,7 @@ def main(args, cfg):
     os.makedirs(os.path.join(VERIF, "replays"), exist_ok=True)
     for r, cls, detail, name in failures[:3]:
         path = os.path.join(VERIF, "replays", "C01-%s.json" % r["job"]["name"])
-        json.dump({"property": "C01", "class": cls, "detail": detail, "test_name": name, "job": r["job"]}, open(path, "w"), indent=1)
+        json.dump({"property": "C01", "class": cls, "detail": detail, "test_name": name, "job": r["job"], "config_text": open(r["job"]["config_file"]).read()}, open(path, "w"), indent=1)
         if name:
             # engine N replay: the single failing permutation, three times in fresh processes, same verdict required
             same = 0
